@@ -180,14 +180,14 @@ func runC11(c *Ctx) {
 		})
 	}
 	for _, site := range c.Sites(lMail) {
-		cc := callCommon(site)
-		R.Ob(c.siteKey(site, "Mail gets the parsed reverse-path"), c.P.InstrPos(site), describe(cc.Args[0]) == "(*parser).parseReversePath(alloc:p)#0", "from is "+describe(cc.Args[0]))
-		R.Ob(c.siteKey(site, "Mail gets the options built here"), c.P.InstrPos(site), describe(cc.Args[1]) == "alloc:complit", "opts is "+describe(cc.Args[1]))
+		a0, a1 := c.cbArgAt(site, 0), c.cbArgAt(site, 1)
+		R.Ob(c.siteKey(site, "Mail gets the parsed reverse-path"), c.P.InstrPos(site), describe(a0) == "(*parser).parseReversePath(alloc:p)#0", "from is "+describe(a0))
+		R.Ob(c.siteKey(site, "Mail gets the options built here"), c.P.InstrPos(site), describe(a1) == "alloc:complit", "opts is "+describe(a1))
 	}
 	for _, site := range c.Sites(lRcpt) {
-		cc := callCommon(site)
-		R.Ob(c.siteKey(site, "Rcpt gets the parsed path"), c.P.InstrPos(site), describe(cc.Args[0]) == "(*parser).parsePath(alloc:p)#0", "to is "+describe(cc.Args[0]))
-		R.Ob(c.siteKey(site, "Rcpt gets the options built here"), c.P.InstrPos(site), describe(cc.Args[1]) == "alloc:complit", "opts is "+describe(cc.Args[1]))
+		a0, a1 := c.cbArgAt(site, 0), c.cbArgAt(site, 1)
+		R.Ob(c.siteKey(site, "Rcpt gets the parsed path"), c.P.InstrPos(site), describe(a0) == "(*parser).parsePath(alloc:p)#0", "to is "+describe(a0))
+		R.Ob(c.siteKey(site, "Rcpt gets the options built here"), c.P.InstrPos(site), describe(a1) == "alloc:complit", "opts is "+describe(a1))
 	}
 
 	R.Rule("R-param-errors-checked", "E3 edge-feasibility", "every parser/decoder failure in the two handlers makes the accepting store and the callback unreachable and leads to a 5xx", 12)
